@@ -838,6 +838,9 @@ pub fn replay(case: &serde_json::Value) -> i32 {
     if case["part"] == "d" && super::c11d::replay(case) {
         return 1;
     }
+    if case["part"] == "g" && super::c11f::replay_g(case) {
+        return 1;
+    }
     if case["part"] == "f" && super::c11f::replay(case) {
         return 1;
     }
@@ -887,7 +890,10 @@ pub fn run(tier: Tier) -> i32 {
     let (d_runs, d_steps) = super::c11d::part_d(&ctx, &samples);
     let (e_execs, e_both) = part_e(&ctx);
     let (f_runs, f_steps) = super::c11f::part_f(&ctx);
+    let (g_execs, g_points) = super::c11f::part_g(&ctx);
     let cov = json!({
+        "part_g_trap_position_executions": g_execs,
+        "part_g_wait_or_select_injection_points": g_points,
         "part_f_multi_condition_trap_histories": f_runs,
         "part_f_commands_compared": f_steps,
         "part_e_two_signal_executions": e_execs,
@@ -898,7 +904,7 @@ pub fn run(tier: Tier) -> i32 {
         "part_c_interactive_executions_judged": c_judged,
         "states": states,
         "transitions": transitions,
-        "traces_validated_against_impl": transitions + execs + c_execs + d_runs + e_execs + f_runs,
+        "traces_validated_against_impl": transitions + execs + c_execs + d_runs + e_execs + f_runs + g_execs,
         "samples": samples.take(),
         "part_a_closure_reached_in_every_configuration": closed,
         "part_b_executions": execs,
